@@ -2,7 +2,7 @@
     the family number; the verdict says whether the implementation's observed
     behaviour equals the model's. *)
 From Coq Require Import List ZArith Bool.
-From FF Require Import Sx Dispatch TaskTree StoreModel StoreCheck PreCheck EngineMon TaskRun ShareData Vars KeeperCheck MutexCheck Commander ShutdownCheck.
+From FF Require Import Sx Dispatch TaskTree StoreModel StoreCheck PreCheck EngineMon TaskRun ShareData Vars KeeperCheck MutexCheck Commander ShutdownCheck EngineCoreCheck.
 Import ListNotations.
 Local Open Scope Z_scope.
 
@@ -19,11 +19,13 @@ Definition run_monitor (family : Z) (c : sx) : option bool :=
   | 70 => monitor_mutex c
   | 80 => monitor_admit c
   | 90 => monitor_skel c
+  | 130 => monitor_core c
   | _ => if (100 <? family) && (family <? 200) then monitor_journal (family - 100) c else None
   end.
 
 Definition run_explain (family : Z) (c : sx) : sx :=
-  if (100 <? family) && (family <? 200) then explain_journal (family - 100) c
+  if family =? 130 then explain_core c
+  else if (100 <? family) && (family <? 200) then explain_journal (family - 100) c
   else if family =? 60 then explain_keeper c else if family =? 61 then explain_alive c else if family =? 70 then explain_mutex c else L [].
 
 Definition run_case (family : Z) (c : sx) : verdict :=
@@ -44,7 +46,11 @@ Definition run_case (family : Z) (c : sx) : verdict :=
   | 70 => check_mutex c
   | 80 => check_admit c
   | 90 => check_skel c
+  | 130 => check_core c
   | _ => if (100 <? family) && (family <? 200)
-         then match check_journal_store c with OkCase => check_runs c | v => v end
+         then match check_journal_store c with
+              | OkCase => match check_runs c with OkCase => check_core c | v => v end
+              | v => v
+              end
          else BadCase 0
   end.
